@@ -75,6 +75,16 @@ def generate(seed, tier="quick"):
         t = irng.choice(f["tests"])
         t["events"].append({"t": "cmp", "eid": "exa", "site": "xa", "vals": [c13.wrap(irng, c13.ext_value(irng))], "style": "rec"})
         t["events"].append({"t": "cmp", "eid": "enr", "site": "nr", "vals": [["norepr", irng.randint(1, 5)]], "style": "rec"})
+    zrng = sub(seed, "samesize")
+    if zrng.random() < 0.15:
+        # a fix that keeps the size of the file (two elements change places) next to a pending update in the same list: the session that follows
+        # the fix session in the same directory must execute the rewritten source, not a cached compilation of the old one
+        driver = "plugin"
+        a, b = zrng.sample(range(1, 10), 2)
+        c, d = zrng.randint(1, 4), zrng.randint(1, 4)
+        f = sorted(prog["files"], key=lambda f: f["name"])[0]
+        f["sites"]["zs"] = {"op": "eq", "place": "direct", "arg": f"[{a}, {b}, {c} + {d}]", "prev": ["list", [["int", a], ["int", b], ["int", c + d]]]}
+        zrng.choice(f["tests"])["events"].append({"t": "cmp", "eid": "ezs", "site": "zs", "vals": [["list", [["int", b], ["int", a], ["int", c + d]]]], "style": "rec"})
     W.sprinkle_uni(prog, sub(seed, "uni"), 0.1)
     return {"program": prog, "driver": driver, "asserts": asserts, "skip_updates": skip_updates, "fmt": draw_fmt(sub(seed, "fmt")), "max_orders": 6 if tier == "quick" else 24}
 
